@@ -309,6 +309,10 @@ pub struct SchedStats {
     pub bound: usize,
     pub complete: bool,
     pub by_preemptions: Vec<u64>,
+    /// schedules executed a second time from scratch with their full choice sequence
+    pub reexecuted: u64,
+    /// of those, executions whose scheduling points or verdict differed (uncontrolled nondeterminism)
+    pub diverged: u64,
 }
 
 /// Iterative context bounding over one harness.  `exec(prefix)` must build fresh objects, run the
@@ -336,7 +340,50 @@ where
                 (prefix, ex, verdict)
             })
             .collect();
-        for (prefix, ex, verdict) in results {
+        // determinism: every eighth schedule of a batch, and every violating schedule, is executed a
+        // second time from scratch following its complete choice sequence; scheduling points (kind,
+        // enabled set, choice) and the verdict must be identical — a violation that does not repeat
+        // is reported as a machinery failure, never as a verdict.
+        let recheck: Vec<usize> = results
+            .iter()
+            .enumerate()
+            .filter(|(i, (_, ex, v))| ex.aborted.is_none() && (*i % 8 == 0 || v.is_err()))
+            .map(|(i, _)| i)
+            .collect();
+        let second: Vec<(usize, Execution, Result<String, (String, String)>)> = recheck
+            .into_par_iter()
+            .map(|i| {
+                let (ex2, v2) = exec(&results[i].1.choices());
+                (i, ex2, v2)
+            })
+            .collect();
+        let mut unstable: std::collections::BTreeSet<usize> = Default::default();
+        for (i, ex2, v2) in second {
+            stats.reexecuted += 1;
+            let (_, ex, v) = &results[i];
+            let same_verdict = match (v, &v2) {
+                (Ok(a), Ok(b)) => a == b,
+                (Err((a, _)), Err((b, _))) => a == b,
+                _ => false,
+            };
+            if ex.points != ex2.points || !same_verdict {
+                stats.diverged += 1;
+                unstable.insert(i);
+                violations.push((
+                    "MACHINERY".into(),
+                    format!(
+                        "nondeterministic execution: the same schedule gave {} points / {:?} first and {} points / {:?} on re-execution",
+                        ex.points.len(),
+                        v.as_ref().map_err(|e| &e.0),
+                        ex2.points.len(),
+                        v2.as_ref().map_err(|e| &e.0)
+                    ),
+                    ex.choices(),
+                ));
+            }
+        }
+        for (ri, (prefix, ex, verdict)) in results.into_iter().enumerate() {
+            let verdict = if unstable.contains(&ri) && verdict.is_err() { Ok("unstable".to_string()) } else { verdict };
             stats.schedules += 1;
             stats.max_points = stats.max_points.max(ex.points.len());
             let pre = ex.preemptions();
